@@ -344,6 +344,7 @@ void parse_opml_token_chain(mmd_engine * e, token * chain) {
 		free(e->dstr->str);
 		e->dstr->str = metadata->str;
 		e->dstr->currentStringLength = metadata->currentStringLength;
+		e->dstr->currentStringBufferSize = metadata->currentStringBufferSize;
 
 		d_string_free(metadata, false);
 		d_string_free(final, true);
